@@ -336,7 +336,7 @@ class Flattener:
         return toks
 
 
-COMMENT_TEXTS = ["", " c", " a é 世 # ;", "#", " if x { \"", "\t$", " a\r+ 5", "\r"]
+COMMENT_TEXTS = ["", " c", " a é 世 # ;", "#", " if x { \"", "\t$", " a\r+ 5", "\r", " \u2028x\u2029 y", "\u0085 \u000b"]
 
 
 class Layout:
